@@ -139,6 +139,9 @@ class _SynthCtx(object):
     def enum_member(self, ename, member):
         return EV(ename, member)
 
+    def same_member(self, x, c):
+        return x is not None and getattr(x, 'enum_name', None) == c.enum_name and getattr(x, 'name', None) == c.name
+
 
 class R1Synth(object):
     def __init__(self, world, inputs, requested, field_names=()):
